@@ -92,6 +92,14 @@ func realHist(h histCase) []string {
 			var vs []string
 			err := gtree.WalkFromRoot(get(p[1]), func(wn *gtree.WalkerNode) error { vs = append(vs, showVisit(wn)); return nil }, fo...)
 			res = append(res, "v="+showVisits(vs)+" e="+classify(err))
+		case "D":
+			colorOutMu.Lock()
+			old := colorOutput()
+			setColorOutput(&lockedBuf{})
+			err := gtree.MkdirFromRoot(get(p[1]), gtree.WithDryRun(), gtree.WithTargetDir("t"))
+			setColorOutput(old)
+			colorOutMu.Unlock()
+			res = append(res, "e="+classify(err))
 		case "J":
 			var b bytes.Buffer
 			err := gtree.OutputFromRoot(&b, get(p[1]), gtree.WithEncodeJSON())
@@ -168,7 +176,7 @@ func runC13(ctx *Ctx) *Report {
 	if ctx.Thorough {
 		nr = 30000
 	}
-	names := []string{"a", "b", "c", "d"}
+	names := []string{"a", "b", "c", "x/y"}
 	for k := 0; k < nr; k++ {
 		h := histCase{Kind: "hist", Fmt: allFormats()[k%5]}
 		n := 0
@@ -182,6 +190,8 @@ func runC13(ctx *Ctx) *Report {
 				n++
 			case r < 8:
 				h.Ops = append(h.Ops, "O:"+fmtInt(ctx.Rng.Intn(n)))
+			case r == 8 && j%2 == 0:
+				h.Ops = append(h.Ops, "D:"+fmtInt(ctx.Rng.Intn(n)))
 			case r == 8:
 				h.Ops = append(h.Ops, "W:"+fmtInt(ctx.Rng.Intn(n)))
 			default:
@@ -196,13 +206,32 @@ func runC13(ctx *Ctx) *Report {
 		b, _ := json.Marshal(h)
 		nOps := 0
 		for _, op := range h.Ops {
-			if op[0] == 'O' || op[0] == 'W' || op[0] == 'J' {
+			if op[0] == 'O' || op[0] == 'W' || op[0] == 'J' || op[0] == 'D' {
 				nOps++
 			}
 		}
 		rep.Record(h, string(b), nOps >= 2 && len(h.Ops) >= 5, diffs)
 		rep.Count("hist:len=" + fmtInt(len(h.Ops)/10*10) + "+")
 	})
+	// From-Markdown calls one after another on documents in different notations: each gives what it gives alone
+	{
+		var seq []Case
+		sps := coveringSpellings()
+		fo := forestsUpTo(3, []string{"a", "b"})
+		for i := 0; i < 300; i++ {
+			f := fo[(i*7)%len(fo)]
+			doc := spell(f, sps[i%len(sps)])
+			c := newCase([]string{"out", "walk", "outf"}[i%3])
+			c.Mode, c.Format = "iter-text", "json"
+			c.Doc, c.DocText = hx(doc), docText(doc)
+			seq = append(seq, c)
+		}
+		m := NewModel()
+		for _, c := range seq {
+			rep.Record(c, caseKey(c), true, runCase(m, c))
+		}
+		m.Close()
+	}
 	// concurrency: independent histories in parallel goroutines give the results they give alone;
 	// independent From-Markdown calls likewise
 	conc := hs
